@@ -437,5 +437,9 @@ func (f *fApp) deleteSilence(id string) int {
 }
 
 func newEnv(integs map[string][]fInteg) *fEnv {
-	return &fEnv{epoch: time.Now(), modes: map[string]fMode{}, hangFor: 8 * time.Second, integs: integs, instance: "am0"}
+	own := map[string][]fInteg{} // per execution: an event may change a receiver's integrations before a reload
+	for k, v := range integs {
+		own[k] = append([]fInteg{}, v...)
+	}
+	return &fEnv{epoch: time.Now(), modes: map[string]fMode{}, hangFor: 8 * time.Second, integs: own, instance: "am0"}
 }
